@@ -64,8 +64,10 @@ def _mk_h(which):
                 nz = [[G.T(W[i, j] != 0) for j in range(p)] for i in range(p)]
                 cl.append(('zero diagonal', G.And([G.T(W[i, i] == 0) for i in range(p)])))
                 cl.append(('the non-zero pattern is acyclic', G.acyclic(nz)))
-                cl.append(('non-zero entries lie in [w_min, w_max]',
-                           G.And([G.Or(G.T(W[i, j] == 0), G.And(G.T(W[i, j] >= wmin), G.T(W[i, j] <= wmax))) for i in range(p) for j in range(p)])))
+                for i in range(p):
+                    for j in range(p):
+                        if i != j:
+                            cl.append(('non-zero entries lie in [w_min, w_max]', G.Or(G.T(W[i, j] == 0), G.And(G.T(W[i, j] >= wmin), G.T(W[i, j] <= wmax)))))
                 outside0 = G.Or(G.T(wmin > 0), G.T(wmax < 0))
                 if which == 'full':
                     cl.append(('dag_full: every pair of nodes is adjacent whenever 0 is outside [w_min, w_max]',
